@@ -36,6 +36,8 @@ ASSUMPTIONS = [
     "compressor wrappers have no limit option and are out of scope of this property",
 ]
 REQUIRED = [
+    "server_receiver_cases",
+    "server_receiver_timeouts_between_pieces",
     "held_reached_limit_without_error",
     "limit_error_observed",
     "largest_safe_frame_accepted_bytewise",
@@ -411,6 +413,86 @@ def _do(ctx, spec: Spec, L: int, P: int | None, reads: list[int], path: str, hin
         )
 
 
+def server_receiver_case(ctx, rng: random.Random) -> str | None:
+    """the bound as the stream server's request receiver applies it: a handler that waits with a timeout and carries on after
+    TimeoutError, a peer that drips an endless unterminated line with pauses shorter and longer than that timeout. The limit error
+    must reach the handler before more than limit + one read + separator unterminated bytes were received"""
+    import asyncio
+
+    from easynetwork.exceptions import StreamProtocolParseError
+    from easynetwork.lowlevel.api_async.backend._asyncio.backend import AsyncIOBackend
+    from easynetwork.lowlevel.api_async.servers.stream import AsyncStreamServer
+    from easynetwork.protocol import BufferedStreamProtocol, StreamProtocol
+
+    from vlib import memtransport, vloop
+
+    L = rng.choice([32, 64, 100, 255])
+    max_recv = rng.choice([8, 16, 64])
+    buffered = rng.random() < 0.5
+    T = rng.choice([0.25, 0.5])
+    piece = rng.choice([5, 8, 20])
+    total = 4 * L + 4 * max_recv
+    script = []
+    fed = 0
+    while fed < total:
+        script.append((rng.choice([0, 0.1, 2 * T, 3 * T]), b"u" * piece))  # gaps below and well above the handler's timeout
+        fed += piece
+    st = {"limit_at": None, "timeouts": 0, "fed": 0, "other": None}
+
+    async def main(loop):
+        backend = AsyncIOBackend()
+        listener = memtransport.MemListener(backend)
+        ser = StringLineSerializer(limit=L)
+        server = AsyncStreamServer(listener, BufferedStreamProtocol(ser) if buffered else StreamProtocol(ser), max_recv_size=max_recv)
+        m = memtransport.MemStreamTransport(backend)
+        done = asyncio.Event()
+
+        async def handler(client):
+            try:
+                while True:
+                    try:
+                        yield T
+                    except TimeoutError:
+                        st["timeouts"] += 1
+                    except StreamProtocolParseError as exc:
+                        if "LimitOverrunError" in type(exc.error).__name__:
+                            st["limit_at"] = sum(e[1] for e in m.events if e[0] == "recv")  # bytes the server had taken from the transport
+                            return
+                        st["other"] = repr(exc)
+                        return
+            finally:
+                done.set()
+
+        serve = asyncio.ensure_future(server.serve(handler))
+        listener.connect(m)
+        feed = asyncio.ensure_future(memtransport.feeder(m.incoming, script))
+        await asyncio.wait([asyncio.ensure_future(done.wait()), feed], return_when=asyncio.FIRST_COMPLETED)
+        for _ in range(10):
+            await asyncio.sleep(0.1)
+        st["fed"] = sum(e[1] for e in m.events if e[0] == "recv")
+        feed.cancel()
+        serve.cancel()
+        await asyncio.gather(feed, serve, return_exceptions=True)
+        await server.aclose()
+
+    try:
+        vloop.run(main)
+    except vloop.Quiescent as exc:
+        return f"deadlock: {exc}"
+    ctx.count("server_receiver_cases")
+    if st["timeouts"]:
+        ctx.count("server_receiver_timeouts_between_pieces", st["timeouts"])
+    bound = L + max_recv + 2
+    where = f"server request receiver ({'buffered' if buffered else 'copy'} path, limit {L}, max_recv_size {max_recv}, handler timeout {T}, pieces of {piece} bytes, {st['timeouts']} TimeoutErrors in between)"
+    if st["other"]:
+        return f"{where}: unexpected parse error {st['other']}"
+    if st["limit_at"] is None:
+        return f"{where}: {st['fed']} unterminated bytes were received and no limit error reached the handler (bound {bound})"
+    if st["limit_at"] > bound:
+        return f"{where}: the limit error came after {st['limit_at']} unterminated bytes (bound {bound})"
+    return None
+
+
 def plan(tier: str, seed: int) -> list[dict]:
     names = [s.name for s in specs()]
     shards = []
@@ -466,9 +548,16 @@ def run_shard(params: dict, ctx) -> None:
                 reads = [max(r, 512) for r in reads]
             _do(ctx, spec, L, P, reads, path, rng.choice(gen.HINTS), tag="big")
             _do(ctx, spec, L, None, [max(1, reads[0])], path, 64, endless_len=2 * L + 3 * max(reads) + 50, tag="big-endless")
+    for i in range(6 if params["random_big"] <= 20 else 60):
+        why = server_receiver_case(ctx, rng)
+        ctx.case(True, "server-receiver", params["seed"], i)
+        if why:
+            ctx.violation("unbounded:server-receiver", why, {"spec": "server-receiver", "seed": params["seed"], "i": i})
     ctx.sample({"spec": spec.name, "limit": params["limits"][0], "payload_lengths": "0..limit+sep+read", "reads": "1..limit+4", "paths": ["copy", "buffered"]})
 
 
 def replay(witness: dict, ctx) -> None:
+    if witness.get("spec") == "server-receiver":
+        return  # regenerated from the shard's PRNG stream: re-run the check with the same seed
     spec = spec_by_name(witness["spec"])
     _do(ctx, spec, witness["limit"], witness["P"], witness["reads"], witness["path"], witness["hint"], witness.get("endless_len", 0), tag="replay")
